@@ -86,6 +86,8 @@ def run(ctx):
         if len(reqs) >= 15000:
             flush()     # keep memory bounded in long runs
         info = fam[si % len(fam)] if si < len(fam) or rng.random() < 0.5 else schemas.random_schema(rng)
+        if si == len(fam):
+            info = schemas.inline_content_schema()     # an inline node with content, atoms with content
         schema = info.schema
         ctx.driver.add_schema(info)
         for _ in range(ctx.budget(3, 8)):
